@@ -93,7 +93,7 @@ Definition fits (e : expr) (q : N) : Prop := left_open e = true -> inside (hdef 
 Definition stops (q : N) (rest : list item) : Prop :=
   match rest with
   | [] => True
-  | IClose _ :: _ => True
+  | IClose _ _ :: _ => True
   | IBinary d _ :: _ | ISuffix d _ :: _ => inside d q = false
   | _ => False
   end.
@@ -103,7 +103,7 @@ Proof. intros H. unfold inside. rewrite H. reflexivity. Qed.
 
 Lemma stops_mono q q' rest : q' <= q -> stops q rest -> stops q' rest.
 Proof.
-  intros Hle H. destruct rest as [|[d k|d k|d k|d k|k|k] r]; cbn [stops] in *; try exact H.
+  intros Hle H. destruct rest as [|[d k|d k|d k|d k|b k|b k] r]; cbn [stops] in *; try exact H.
   - unfold inside in *. destruct (ref_rank d) as [p|]; [|reflexivity].
     apply orb_false_iff in H. destruct H as [H1 H2]. apply N.ltb_ge in H1.
     apply orb_false_iff. split; [apply N.ltb_ge; lia|].
@@ -118,7 +118,7 @@ Qed.
 
 Lemma stops_done q rest lhs : stops q rest -> Climb q (Some lhs) rest lhs rest.
 Proof.
-  intros H. destruct rest as [|[d k|d k|d k|d k|k|k] r]; cbn [stops] in H; try contradiction.
+  intros H. destruct rest as [|[d k|d k|d k|d k|b k|b k] r]; cbn [stops] in H; try contradiction.
   - apply C_end.
   - apply C_suf_out. exact H.
   - apply C_bin_out. exact H.
